@@ -122,8 +122,31 @@ def _tree_strings(t):
 ENV_NAME = "CCVC09_PW"
 
 
+def exhaustive(tier):
+    """Long secrets: every algorithm x lengths around 64 KiB and 1 MiB (and a few MiB in the thorough tier), as text in 1- and
+    2-byte characters and as bytes. Kept as (unit, count) descriptors so that reports and replays stay small."""
+    sizes = [1 << 10, (1 << 16) - 1, 1 << 16, (1 << 16) + 1, (1 << 20) - 1, 1 << 20, (1 << 20) + 1, 600 * 1024] + ([3 << 20, 1 << 23] if tier != "quick" else [])
+    for alg in ALGS:
+        for n in sizes:
+            for unit in ("s", "\u00e9", b"\xffb"):
+                if tier == "quick" and unit != "s" and n not in ((1 << 20) + 1, 600 * 1024, 1 << 10):
+                    continue
+                yield {"alg": alg, "p": {"$repeat": unit, "n": n}, "q": {"v": {"$repeat": unit, "n": n - 1}, "near": True}, "fmt": "json" if isinstance(unit, str) else "pickle",
+                       "default": "none", "place": "root", "route": "attr", "salt": b"", "env": None}
+
+
+def _long(v):
+    if isinstance(v, dict) and "$repeat" in v:
+        unit = v["$repeat"]
+        return (unit * (v["n"] // len(unit) + 1))[:v["n"]]
+    return v
+
+
 def run_case(case, R):
     import os
+    if isinstance(case["p"], dict):
+        case = dict(case, p=_long(case["p"]), q=dict(case["q"], v=_long(case["q"]["v"])))
+        R.label("p:long")
     os.environ.pop(ENV_NAME, None)
     if case.get("env") == "blank":
         os.environ[ENV_NAME] = ""
